@@ -31,6 +31,13 @@ def main():
         print("patch does not apply:\n" + r.stdout)
         return 2
     res = {"patch": patch, "tier": tier, "checks": {}}
+    # evidence files must describe runs on the UNCHANGED tree: keep them aside while the patch is applied
+    import os, shutil
+    saved = {}
+    for p in props:
+        ev = f"/verif/evidence/{p}.json"
+        if os.path.exists(ev):
+            saved[ev] = open(ev, "rb").read()
     try:
         for p in props:
             t0 = time.time()
@@ -42,6 +49,8 @@ def main():
     finally:
         sh(["git", "-C", REPO, "checkout", "--", "."])
         sh(["git", "-C", REPO, "clean", "-fdq", "--", "src", "tests", "benches"])
+        for ev, content in saved.items():
+            open(ev, "wb").write(content)
     res["detected_by"] = [p for p, v in res["checks"].items() if v["exit"] == 1 and any(l.startswith("VIOLATION") for l in v["lines"])]
     json.dump(res, open(out, "w"), indent=1)
     print("detected_by", res["detected_by"])
